@@ -959,6 +959,10 @@ def check(ctx: Ctx):
         "FORWARD: callers pass num_processes on unchanged. PURE: over the call graph reachable from the analysis "
         "entry points no RNG, clock, environment access, `global` or module/class-level state write occurs."
     )
+    from ..rules import support as _sup15
+
+    _sup15.check_serial_test(ctx, ("droplets.image_analysis.refine_droplets", "droplets.emulsions.EmulsionTimeCourse.from_storage"))
+    _sup15.check_callee_once(ctx, "droplets.image_analysis.refine_droplets", "refine_droplet")
     splits = discover_splits(ctx.model)
     for fi, ifn in splits:
         check_split(ctx, fi, ifn)
